@@ -1273,6 +1273,9 @@ class Database(object):
                                    'has no rights to see the object %s on the frontend'
                                    % (user, sorted(user_groups), obj))
 
+        cache = database._get_cache()
+        if cache.is_alive and cache.modified: cache.flush()
+
         object_set = set()
         caches = set()
         def obj_converter(obj):
